@@ -70,6 +70,12 @@ fn settings_from(v: &Value, out_dir: Option<PathBuf>, out_dir_actions: Option<Pa
     if let Some(x) = b("loc_info") {
         st = st.builder_loc_info(x);
     }
+    if let Some(x) = b("dot") {
+        st = st.dot(x);
+    }
+    if let Some(x) = b("print_table") {
+        st = st.print_table(x);
+    }
     if let Some(x) = s("input_type") {
         st = st.input_type(x.to_string());
     }
